@@ -197,7 +197,16 @@ pub fn run_c14(ctx: &Ctx) -> i32 {
                         while padded.len() < n { padded.push(zero_slot()); }
                         let pre: Vec<D4> = (0..n).map(|_| rand_d4(&mut rng)).collect();
                         let macc = priv_model_accept(&padded).is_ok();
-                        let (cacc, _, _) = w.judge(&padded.iter().map(|s| s.to_pis()).collect::<Vec<_>>(), &pre, &[]);
+                        let want_children: Vec<Vec<F>> = padded.iter().map(|s| s.to_pis()).collect();
+                        let (cacc0, _, run) = w.judge(&want_children, &pre, &[]);
+                        // the oracle judges the assignment it actually evaluated: child inputs tied together by copy
+                        // constraints (the asset ids) cannot both take their pinned values, so a satisfied assignment
+                        // whose read-back children differ from the supplied ones is a verdict about ANOTHER vector
+                        let (got_children, _) = w.read_children(&run);
+                        let cacc = cacc0 && got_children == want_children && run.conflicts.is_empty();
+                        if cacc0 && !cacc {
+                            rep.count("private:oracle_assignment_differs_from_supplied_vector(copy-constrained inputs)");
+                        }
                         if macc || cacc {
                             rep.violation("commit / private rejects a provable batch", &format!("PrivateBatchProver::commit rejected a policy-conforming batch that the circuit can prove (model {macc}, circuit {cacc}): {}", e.to_string().chars().take(160).collect::<String>()), case());
                         } else {
@@ -511,4 +520,34 @@ pub fn run_c15(ctx: &Ctx) -> i32 {
         }
     }
     rep.finish(ctx, ctx.tier.pick(500, 10000))
+}
+
+/// replay helper for private-batch vectors recorded in replay files (`case.supplied` or `case.case.children`)
+pub fn judge_private_replay(path: &str) -> i32 {
+    let txt = match std::fs::read_to_string(path) {
+        Ok(t) => t,
+        Err(e) => {
+            eprintln!("cannot read {path}: {e}");
+            return 2;
+        }
+    };
+    let v: serde_json::Value = serde_json::from_str(&txt).unwrap_or(serde_json::Value::Null);
+    let arr = v["case"]["supplied"].as_array().or_else(|| v["case"]["case"]["children"].as_array()).cloned().unwrap_or_default();
+    let n = v["case"]["n"].as_u64().or_else(|| v["case"]["case"]["n"].as_u64()).unwrap_or(arr.len() as u64) as usize;
+    let mut slots: Vec<Slot> = arr.iter().map(|c| Slot::from_pis(&c.as_array().unwrap().iter().map(|x| f(x.as_u64().unwrap())).collect::<Vec<_>>())).collect();
+    while slots.len() < n {
+        slots.push(zero_slot());
+    }
+    let w = PrivW::build(n).unwrap();
+    println!("n={n} model={:?}", priv_model_accept(&slots));
+    let mut rng = rand::thread_rng();
+    for round in 0..5 {
+        let pre: Vec<D4> = (0..n).map(|_| rand_d4(&mut rng)).collect();
+        let (acc, out, run) = w.judge(&slots.iter().map(|s| s.to_pis()).collect::<Vec<_>>(), &pre, &[]);
+        let ev = w.cso.eval(&run);
+        let (got, _) = w.read_children(&run);
+        let same = got == slots.iter().map(|s| s.to_pis()).collect::<Vec<_>>();
+        println!("round {round}: constraints satisfied={acc} failing_rows={} pin_conflicts={} evaluated_vector_is_the_supplied_one={same} => accepted={} header={:?}", ev.failing_rows(), run.conflicts.len(), acc && same && run.conflicts.is_empty(), out.iter().take(8).map(|x| u(*x)).collect::<Vec<_>>());
+    }
+    0
 }
